@@ -1,1 +1,75 @@
-From SF Require Import Base.Prelude Unsized.Types Unsized.Parse Unsized.Machine Unsized.Ops.
+(* C06 - A failed mutation never corrupts, and single-container operations are atomic.  Statements only.
+   In the machine an `Err c` outcome carries no state: it is only produced on paths that return before any
+   write (errors raised after a write are modelled as `efail` and keep the modified state - that is how the
+   recorded finding D16 shows up in the model).  PROVED for flat shapes: every failure of a list operation -
+   index, range, length prefix, growth beyond the allowance, growth refused by the data access - is such a
+   clean `Err`, the state still represents the same value, and the history continues to refine the owned
+   model from it.  Lists of unsized elements: correspondence check (refusal of growth at every step of
+   growth-heavy histories) and the known finding D16. *)
+From SF Require Import Base.Prelude Gen.Generated Unsized.Types Unsized.Parse Unsized.Machine Unsized.Ops.
+From SF Require Import Unsized.Proofs.EncodeParse Unsized.Proofs.Mem Unsized.Proofs.Notify Unsized.Proofs.Flat.
+
+Theorem C06_flat_growth_refused_is_clean :
+  forall tsA tsB vsA vsB c lw items, length tsA = length vsA -> forall s top idx new,
+    Rep (tsA ++ TList c lw :: tsB) (vsA ++ VList items :: vsB) s top ->
+    0 <= idx <= zlen items -> zlen items + zlen new < 256 ^ Z.of_nat lw -> new <> [] ->
+    (m_refuse s = 1 \/ m_cap s < m_len s + Z.of_nat (fsize c) * zlen new) ->
+    list_insert (TStruct (tsA ++ TList c lw :: tsB)) s top [PF (length tsA)] idx new = Err E_REALLOC.
+Proof. exact list_insert_realloc_error. Qed.
+
+Theorem C06_flat_index_error_is_clean :
+  forall tsA tsB vsA vsB c lw items, length tsA = length vsA -> forall s top idx new,
+    Rep (tsA ++ TList c lw :: tsB) (vsA ++ VList items :: vsB) s top -> zlen items < idx ->
+    list_insert (TStruct (tsA ++ TList c lw :: tsB)) s top [PF (length tsA)] idx new = Err E_INDEX.
+Proof. exact list_insert_index_error. Qed.
+
+Theorem C06_flat_prefix_overflow_is_clean :
+  forall tsA tsB vsA vsB c lw items, length tsA = length vsA -> forall s top idx new,
+    Rep (tsA ++ TList c lw :: tsB) (vsA ++ VList items :: vsB) s top -> idx <= zlen items ->
+    256 ^ Z.of_nat lw <= zlen items + zlen new ->
+    list_insert (TStruct (tsA ++ TList c lw :: tsB)) s top [PF (length tsA)] idx new = Err E_TOPRIM.
+Proof. exact list_insert_prefix_error. Qed.
+
+Theorem C06_flat_remove_errors_are_clean :
+  forall tsA tsB vsA vsB c lw items, length tsA = length vsA -> forall s top st en,
+    Rep (tsA ++ TList c lw :: tsB) (vsA ++ VList items :: vsB) s top ->
+    (en < st -> list_remove (TStruct (tsA ++ TList c lw :: tsB)) s top [PF (length tsA)] st en = Err E_RANGE) /\
+    (st <= en -> zlen items < en -> list_remove (TStruct (tsA ++ TList c lw :: tsB)) s top [PF (length tsA)] st en = Err E_INDEX).
+Proof.
+  intros. split; intros; [eapply list_remove_range_error|eapply list_remove_index_error]; eauto.
+Qed.
+
+(* after a failed operation the state is the one before the call (an Err carries none), still represents
+   the same value with canonical bytes and exact length, and later operations behave correctly on it *)
+Theorem C06_flat_continue_after_failure :
+  forall ts vs s top o c h vs',
+    Rep ts vs s top -> m_refuse s <> 1 -> mstep ts s top o = Err c ->
+    orun (m_cap s) ts vs h = Some vs' ->
+    ztake (m_len s) (m_mem s) = encode (TStruct ts) (VStruct vs) /\
+    exists s', mrun ts s top h = Ok (s', PStruct (lay ts vs' 0)) /\ Rep ts vs' s' (PStruct (lay ts vs' 0)).
+Proof.
+  intros ts vs s top o c h vs' R Hn _ Ho. split.
+  - destruct (rep_observable true ts vs s top R) as (_ & Hb & _). exact Hb.
+  - exact (flat_run_refines ts h vs s top vs' R Hn Ho).
+Qed.
+
+(* errors raised by the machine's resize primitives are raised before memory is touched: the allocation and the
+   fault flag are what they were (all shapes) *)
+Theorem C06_realloc_refusal_precedes_writes :
+  forall s n, m_len s < n -> m_refuse s = 1 -> realloc s n = Err E_REALLOC.
+Proof.
+  intros s n Hg Hr. unfold realloc. destruct (m_len s <? n) eqn:E; [|zb; lia]. rewrite Hr, Z.eqb_refl. reflexivity.
+Qed.
+
+Example C06_nonvacuous :
+  let ts := [TList (FAny 1) 1; TList (FAny 1) 4] in
+  let vs := [VList (repeat [1] 255); VList [[2]]] in
+  let s := mkMach (encs ts vs ++ zrepeat 0 10240) (zlen (encs ts vs)) 0 0 in
+  match get_ptr true (TStruct ts) (m_mem s) 0 (m_len s) with
+  | Ok (top, _) =>
+      list_insert (TStruct ts) s top [PF 0] 0 [[9]] = Err E_TOPRIM /\
+      list_insert (TStruct ts) s top [PF 1] 5 [[9]] = Err E_INDEX /\
+      list_remove (TStruct ts) s top [PF 1] 1 0 = Err E_RANGE
+  | _ => False
+  end.
+Proof. vm_compute. repeat split; reflexivity. Qed.
